@@ -71,8 +71,15 @@ func LoadCCache(cpath string) (*CCache, error) {
 	return c, err
 }
 
+// errTruncated is returned when the credential cache data ends before a field is complete or a
+// length or count field points beyond the end of the data.
+var errTruncated = errors.New("invalid credential cache data: data is truncated or a length field is out of range")
+
 // Unmarshal a byte slice of credential cache data into CCache type.
 func (c *CCache) Unmarshal(b []byte) error {
+	if len(b) < 2 {
+		return errors.New("Invalid credential cache data. Less than 2 bytes")
+	}
 	p := 0
 	//The first byte of the file always has the value 5
 	if int8(b[p]) != 5 {
@@ -98,7 +105,11 @@ func (c *CCache) Unmarshal(b []byte) error {
 			return err
 		}
 	}
-	c.DefaultPrincipal = parsePrincipal(b, &p, c, &endian)
+	var err error
+	c.DefaultPrincipal, err = parsePrincipal(b, &p, c, &endian)
+	if err != nil {
+		return err
+	}
 	for p < len(b) {
 		cred, err := parseCredential(b, &p, c, &endian)
 		if err != nil {
@@ -114,11 +125,26 @@ func parseHeader(b []byte, p *int, c *CCache, e *binary.ByteOrder) error {
 		return errors.New("Credentials cache version is not 4 so there is no header to parse.")
 	}
 	h := header{}
-	h.length = uint16(readInt16(b, p, e))
+	l, err := readInt16(b, p, e)
+	if err != nil {
+		return err
+	}
+	h.length = uint16(l)
 	for *p <= int(h.length) {
 		f := headerField{}
-		f.tag = uint16(readInt16(b, p, e))
-		f.length = uint16(readInt16(b, p, e))
+		t, err := readInt16(b, p, e)
+		if err != nil {
+			return err
+		}
+		f.tag = uint16(t)
+		l, err := readInt16(b, p, e)
+		if err != nil {
+			return err
+		}
+		f.length = uint16(l)
+		if int(f.length) > len(b)-*p {
+			return errTruncated
+		}
 		f.value = b[*p : *p+int(f.length)]
 		*p += int(f.length)
 		if !f.valid() {
@@ -131,61 +157,113 @@ func parseHeader(b []byte, p *int, c *CCache, e *binary.ByteOrder) error {
 }
 
 // Parse the Keytab bytes of a principal into a Keytab entry's principal.
-func parsePrincipal(b []byte, p *int, c *CCache, e *binary.ByteOrder) (princ principal) {
+func parsePrincipal(b []byte, p *int, c *CCache, e *binary.ByteOrder) (princ principal, err error) {
 	if c.Version != 1 {
 		//Name Type is omitted in version 1
-		princ.PrincipalName.NameType = readInt32(b, p, e)
+		princ.PrincipalName.NameType, err = readInt32(b, p, e)
+		if err != nil {
+			return
+		}
 	}
-	nc := int(readInt32(b, p, e))
+	n, err := readInt32(b, p, e)
+	if err != nil {
+		return
+	}
+	nc := int(n)
 	if c.Version == 1 {
 		//In version 1 the number of components includes the realm. Minus 1 to make consistent with version 2
 		nc--
 	}
-	lenRealm := readInt32(b, p, e)
-	princ.Realm = string(readBytes(b, p, int(lenRealm), e))
-	for i := 0; i < nc; i++ {
-		l := readInt32(b, p, e)
-		princ.PrincipalName.NameString = append(princ.PrincipalName.NameString, string(readBytes(b, p, int(l), e)))
+	realm, err := readData(b, p, e)
+	if err != nil {
+		return
 	}
-	return princ
+	princ.Realm = string(realm)
+	for i := 0; i < nc; i++ {
+		var comp []byte
+		comp, err = readData(b, p, e)
+		if err != nil {
+			return
+		}
+		princ.PrincipalName.NameString = append(princ.PrincipalName.NameString, string(comp))
+	}
+	return princ, nil
 }
 
 func parseCredential(b []byte, p *int, c *CCache, e *binary.ByteOrder) (cred *Credential, err error) {
 	cred = new(Credential)
-	cred.Client = parsePrincipal(b, p, c, e)
-	cred.Server = parsePrincipal(b, p, c, e)
+	cred.Client, err = parsePrincipal(b, p, c, e)
+	if err != nil {
+		return
+	}
+	cred.Server, err = parsePrincipal(b, p, c, e)
+	if err != nil {
+		return
+	}
 	key := types.EncryptionKey{}
-	key.KeyType = int32(readInt16(b, p, e))
+	kt, err := readInt16(b, p, e)
+	if err != nil {
+		return
+	}
 	if c.Version == 3 {
 		//repeated twice in version 3
-		key.KeyType = int32(readInt16(b, p, e))
+		kt, err = readInt16(b, p, e)
+		if err != nil {
+			return
+		}
 	}
-	key.KeyValue = readData(b, p, e)
+	key.KeyType = int32(kt)
+	key.KeyValue, err = readData(b, p, e)
+	if err != nil {
+		return
+	}
 	cred.Key = key
-	cred.AuthTime = readTimestamp(b, p, e)
-	cred.StartTime = readTimestamp(b, p, e)
-	cred.EndTime = readTimestamp(b, p, e)
-	cred.RenewTill = readTimestamp(b, p, e)
-	if ik := readInt8(b, p, e); ik == 0 {
-		cred.IsSKey = false
-	} else {
-		cred.IsSKey = true
+	for _, t := range []*time.Time{&cred.AuthTime, &cred.StartTime, &cred.EndTime, &cred.RenewTill} {
+		*t, err = readTimestamp(b, p, e)
+		if err != nil {
+			return
+		}
 	}
+	ik, err := readInt8(b, p, e)
+	if err != nil {
+		return
+	}
+	cred.IsSKey = ik != 0
 	cred.TicketFlags = types.NewKrbFlags()
 	// The flags are stored as a 32 bit integer in the byte order of the file format version
-	binary.BigEndian.PutUint32(cred.TicketFlags.Bytes, uint32(readInt32(b, p, e)))
-	l := int(readInt32(b, p, e))
+	fl, err := readInt32(b, p, e)
+	if err != nil {
+		return
+	}
+	binary.BigEndian.PutUint32(cred.TicketFlags.Bytes, uint32(fl))
+	// Each address and each authorization data entry takes at least 6 bytes (type and length)
+	l, err := readCount(b, p, 6, e)
+	if err != nil {
+		return
+	}
 	cred.Addresses = make([]types.HostAddress, l, l)
 	for i := range cred.Addresses {
-		cred.Addresses[i] = readAddress(b, p, e)
+		cred.Addresses[i], err = readAddress(b, p, e)
+		if err != nil {
+			return
+		}
 	}
-	l = int(readInt32(b, p, e))
+	l, err = readCount(b, p, 6, e)
+	if err != nil {
+		return
+	}
 	cred.AuthData = make([]types.AuthorizationDataEntry, l, l)
 	for i := range cred.AuthData {
-		cred.AuthData[i] = readAuthDataEntry(b, p, e)
+		cred.AuthData[i], err = readAuthDataEntry(b, p, e)
+		if err != nil {
+			return
+		}
 	}
-	cred.Ticket = readData(b, p, e)
-	cred.SecondTicket = readData(b, p, e)
+	cred.Ticket, err = readData(b, p, e)
+	if err != nil {
+		return
+	}
+	cred.SecondTicket, err = readData(b, p, e)
 	return
 }
 
@@ -261,32 +339,61 @@ func (h *headerField) valid() bool {
 	return true
 }
 
-func readData(b []byte, p *int, e *binary.ByteOrder) []byte {
-	l := readInt32(b, p, e)
+func readData(b []byte, p *int, e *binary.ByteOrder) ([]byte, error) {
+	l, err := readInt32(b, p, e)
+	if err != nil {
+		return nil, err
+	}
 	return readBytes(b, p, int(l), e)
 }
 
-func readAddress(b []byte, p *int, e *binary.ByteOrder) types.HostAddress {
-	a := types.HostAddress{}
-	a.AddrType = int32(readInt16(b, p, e))
-	a.Address = readData(b, p, e)
-	return a
+// readCount reads a 32 bit count of elements that each take at least min bytes and checks that
+// so many elements can follow in the data.
+func readCount(b []byte, p *int, min int, e *binary.ByteOrder) (int, error) {
+	l, err := readInt32(b, p, e)
+	if err != nil {
+		return 0, err
+	}
+	if l < 0 || int(l) > (len(b)-*p)/min {
+		return 0, errTruncated
+	}
+	return int(l), nil
 }
 
-func readAuthDataEntry(b []byte, p *int, e *binary.ByteOrder) types.AuthorizationDataEntry {
-	a := types.AuthorizationDataEntry{}
-	a.ADType = int32(readInt16(b, p, e))
-	a.ADData = readData(b, p, e)
-	return a
+func readAddress(b []byte, p *int, e *binary.ByteOrder) (a types.HostAddress, err error) {
+	t, err := readInt16(b, p, e)
+	if err != nil {
+		return
+	}
+	a.AddrType = int32(t)
+	a.Address, err = readData(b, p, e)
+	return
+}
+
+func readAuthDataEntry(b []byte, p *int, e *binary.ByteOrder) (a types.AuthorizationDataEntry, err error) {
+	t, err := readInt16(b, p, e)
+	if err != nil {
+		return
+	}
+	a.ADType = int32(t)
+	a.ADData, err = readData(b, p, e)
+	return
 }
 
 // Read bytes representing a timestamp.
-func readTimestamp(b []byte, p *int, e *binary.ByteOrder) time.Time {
-	return time.Unix(int64(readInt32(b, p, e)), 0)
+func readTimestamp(b []byte, p *int, e *binary.ByteOrder) (time.Time, error) {
+	i, err := readInt32(b, p, e)
+	if err != nil {
+		return time.Time{}, err
+	}
+	return time.Unix(int64(i), 0), nil
 }
 
 // Read bytes representing an eight bit integer.
-func readInt8(b []byte, p *int, e *binary.ByteOrder) (i int8) {
+func readInt8(b []byte, p *int, e *binary.ByteOrder) (i int8, err error) {
+	if *p < 0 || len(b)-*p < 1 {
+		return 0, errTruncated
+	}
 	buf := bytes.NewBuffer(b[*p : *p+1])
 	binary.Read(buf, *e, &i)
 	*p++
@@ -294,7 +401,10 @@ func readInt8(b []byte, p *int, e *binary.ByteOrder) (i int8) {
 }
 
 // Read bytes representing a sixteen bit integer.
-func readInt16(b []byte, p *int, e *binary.ByteOrder) (i int16) {
+func readInt16(b []byte, p *int, e *binary.ByteOrder) (i int16, err error) {
+	if *p < 0 || len(b)-*p < 2 {
+		return 0, errTruncated
+	}
 	buf := bytes.NewBuffer(b[*p : *p+2])
 	binary.Read(buf, *e, &i)
 	*p += 2
@@ -302,19 +412,25 @@ func readInt16(b []byte, p *int, e *binary.ByteOrder) (i int16) {
 }
 
 // Read bytes representing a thirty two bit integer.
-func readInt32(b []byte, p *int, e *binary.ByteOrder) (i int32) {
+func readInt32(b []byte, p *int, e *binary.ByteOrder) (i int32, err error) {
+	if *p < 0 || len(b)-*p < 4 {
+		return 0, errTruncated
+	}
 	buf := bytes.NewBuffer(b[*p : *p+4])
 	binary.Read(buf, *e, &i)
 	*p += 4
 	return
 }
 
-func readBytes(b []byte, p *int, s int, e *binary.ByteOrder) []byte {
+func readBytes(b []byte, p *int, s int, e *binary.ByteOrder) ([]byte, error) {
+	if s < 0 || *p < 0 || s > len(b)-*p {
+		return nil, errTruncated
+	}
 	buf := bytes.NewBuffer(b[*p : *p+s])
 	r := make([]byte, s)
 	binary.Read(buf, *e, &r)
 	*p += s
-	return r
+	return r, nil
 }
 
 func isNativeEndianLittle() bool {
